@@ -323,7 +323,7 @@ def split_run(cases, runner_impl, runner_model, shards=None):
     pass
 
 
-def run_both(bdir, cases, tag, shards=None, timeout=3600):
+def run_both(bdir, cases, tag, shards=None, timeout=3600, model=True):
     """cases: list of case lines (str).  Runs impl and model on the same cases (sharded over the
     cores), returns dict: {n, compared_tokens, mismatches: [(case_line, first differing key, impl, model)],
     impl_traces, model_traces, crashes}"""
@@ -344,7 +344,7 @@ def run_both(bdir, cases, tag, shards=None, timeout=3600):
     for cp, part in files:
         pi = subprocess.Popen([os.path.join(bdir, 'harness'), cp, cp + '.impl'], stdout=subprocess.PIPE,
                               stderr=subprocess.STDOUT, env=env)
-        pm = subprocess.Popen([os.path.join(OCAML, 'mtmodel'), cp, cp + '.model'], stdout=subprocess.PIPE,
+        pm = subprocess.Popen([os.path.join(OCAML, 'mtmodel'), cp, cp + '.model'] if model else ['true'], stdout=subprocess.PIPE,
                               stderr=subprocess.STDOUT)
         procs.append((cp, part, pi, pm))
     result = {'n': len(cases), 'compared_tokens': 0, 'mismatches': [], 'crashes': [], 'impl': {}, 'model': {}}
@@ -383,6 +383,9 @@ def run_both(bdir, cases, tag, shards=None, timeout=3600):
             if a is not None:
                 a = [x for x in a if not (x and x[0].startswith('@'))]   # impl-only observations (oracle input)
             if a is None and b is None:
+                continue
+            if not model:
+                result['compared_tokens'] += sum(len(x) for x in a) if a else 0
                 continue
             if a is None or b is None:
                 result['mismatches'].append({'case': line, 'key': 'missing-trace', 'impl': a is not None, 'model': b is not None})
